@@ -447,6 +447,25 @@ def aux_pairing(ctx):
               "re-entry of the main frame the later clauses and lower frames are skipped forever and the aux is never started again")
 
 
+def claim_after_checks(ctx, S, rule):
+    """Suspender.action: the conditional aux is claimed (aux.main = <this frame>) only once its start can no longer be refused:
+    every path from the claim leads to aux.enterAll() - a refusal (`return None` after a failed need, ownership test or
+    checkStart) after the claim would leave the auxiliary owned by a frame that never started it"""
+    cl = [n for n in S.stores("aux.main") if isinstance(n.ast, ast.Assign) and not (isinstance(n.ast.value, ast.Constant) and n.ast.value.value is None)]
+    ea = S.call_nodes("aux.enterAll")
+    S.need(cl, "claim `aux.main = <frame>` in Suspender.action")
+    S.need(ea, "aux.enterAll() in Suspender.action")
+    bad = None
+    for c in cl:
+        r = S.cfg.reachable(c.id, removed_nodes=[e.id for e in ea])
+        rets = [S.cfg.nodes[i] for i in r if S.cfg.nodes[i].kind == "return"]
+        if rets or S.cfg.exit.id in r:
+            bad = rets[0] if rets else c
+    ctx.check(bad is None, rule, (bad.ast if bad is not None else cl[0].ast), "Suspender.action claims the aux only on the path that enters it",
+              "a start refused after the claim (failed checkStart, ..) leaves aux.main set: the refused attempt has an effect - the "
+              "auxiliary stays owned by a frame that is not running it, and every other frame is refused as `in use`")
+
+
 def frame_check_enter(ctx, rule="T1-checkEnter"):
     """Frame.checkEnter: before-enter conditions, auxiliary ownership and first-frame checks (shared by C08 and C09)"""
     # Frame.checkEnter
@@ -553,9 +572,11 @@ def entry_guards(ctx):
     sa = ctx.fn("acting", "Suspender.action")
     S = FuncView(ctx, sa)
     ea = S.need(S.call_nodes("aux.enterAll"), "aux.enterAll() in Suspender.action")
+    claim_after_checks(ctx, S, "T1-susp")
     nt = S.need(need_tests(S), "`if not act()` needs test")
-    ot = S.need(S.tests(lambda t: isinstance(t, ast.BoolOp) and isinstance(t.op, ast.And) and
-                        {src(v) for v in t.values} == {"aux.main", "aux.main is not self._act.frame"}), "aux ownership test")
+    ot = S.need([t for t in S.cfg.nodes if t.kind == "test" and isinstance(t.ast.test, ast.BoolOp) and isinstance(t.ast.test.op, ast.And) and
+                 {src(S.sym(v, t)) for v in t.ast.test.values} == {"aux.main", "aux.main is not self._act.frame"}], "aux ownership test")
+
     st = S.need(S.tests(lambda t: src(t) == "not aux.checkStart()"), "`if not aux.checkStart()`")
     nl = S.need(loops_over(S, "needs"), "needs loop")
     ok = S.dominated_by_edge(ea, ot[0], "F") and S.dominated_by_edge(ea, st[0], "F") and \
@@ -791,6 +812,7 @@ def suspender(ctx):
               "computing a transition from the full outline while a conditional aux has truncated .actives lets a clause of a frame "
               "above the main frame transit to a frame *below* it: activate(far) restores the full outline, the lower frame is "
               "entered and recurs every tick although the aux is still running (the suspender truncates only once, at aux start)")
+    claim_after_checks(ctx, S, "T3-susp")
     ea = S.need(S.call_nodes("aux.enterAll"), "aux.enterAll()")
     rc = S.need(S.call_nodes("aux.recur"), "aux.recur()")
     sg = S.need(S.call_nodes("aux.segue"), "aux.segue()")
